@@ -302,8 +302,7 @@ class YP(object):
 
     def findall(self, template, goal, bag):
         '''findall/3 returns values according to template into bag, that satisfy goal.'''
-        # assumes goal is instantiated
-        q = self.query(goal._name,goal._args)
+        q = self.call(goal)
         results = self.makelist([ get_value(template) for r in q ])
         for y in unify(bag, results):
             yield False
@@ -315,11 +314,10 @@ class YP(object):
             goal_name = to_python(goal_value)
             goal_args = []
         elif isinstance(goal_value, Functor):
-            goal_name = goal._name
-            goal_args = goal._args
+            goal_name = goal_value._name
+            goal_args = goal_value._args
         else:
-            # TODO: raise exception
-            pass
+            raise YPException('call/N: goal is not callable: %s' % goal_value)
         yield from self.query(goal_name, goal_args + list(args))
 
     def once(self, goal):
